@@ -17,6 +17,13 @@ CHECKS = {
  "C13": ("model_checking", "TLC model checking of Buffer spec (accessor commutation, pristine Reset/Take) + replay with accessors inserted at every position, hidden state compared by reflection",
    "Every explored history is replayed with and without accessor calls after every operation; hidden state before/after each accessor is compared by reflection, Len against RedactableString, continuations after Reset/Take against a new object.",
    "DESIGN.md 6/C13", "Cap() and aliasing of RedactableBytes are outside the claim"),
+
+ "C07": ("model_checking", "TLC model checking of Markers spec over all token strings up to a bound + replay of every string on the real Redact/StripMarkers + TLC trace validation of random longer inputs",
+   "Every string over the distinguishing alphabet (whole markers, the cross, LF, ordinary byte, each partial-marker byte) up to the bound is enumerated by TLC, the projection laws are checked on the model, and the real string/bytes variants are compared byte-exact with the model and judged against the statement itself.",
+   "DESIGN.md 6/C07", "Go regexp engine treated as part of the implementation under test; F6 listed as known finding"),
+ "C10": ("model_checking", "TLC model checking of Escape/Buffer spec over all byte strings up to a bound x every offset x flags + byte-exact replay on InternalEscapeBytes/EscapeMarkers/EscapeBytes/ManualBuffer + trace validation",
+   "Exhaustive within the bound for every start offset and flag combination; byte-exact agreement of the real escape functions with the transcription; input slices checked unmodified; split-insensitivity checked on the real buffer for every split point.",
+   "DESIGN.md 6/C10", "utf8.DecodeLastRune from the Go standard library is trusted as the definition of a dangling sequence"),
 }
 
 NOT_YET = {
